@@ -107,7 +107,7 @@ func (sim *Simulation) executeQueue(phase info.BattlePhase, next stateFn) (state
 
 		// if source is dead, skip this insert (limbo okay for case of revives)
 		// TODO: make this behavior change based off current insert priority?
-		if sim.Attr.State(insert.Source) == info.Dead {
+		if sim.Attr.State(insert.Source) == info.Dead || !sim.onField(insert.Source) {
 			continue
 		}
 
